@@ -88,7 +88,7 @@ fn child_main(batch: &str, results: &str) {
     for inp in &inputs {
         let o = run::run_input(inp);
         let line = json!({
-            "id": inp.id, "fails": o.fails, "corr": o.corr, "oracle": o.oracle, "hist": o.hist,
+            "id": inp.id, "obs": o.obs, "fails": o.fails, "corr": o.corr, "oracle": o.oracle, "hist": o.hist,
             "events": o.events, "nontrivial": o.nontrivial, "sample": o.sample,
         });
         // unbuffered: the line is on disk before the next input starts
@@ -177,13 +177,21 @@ fn run_batch(exe: &Path, dir: &Path, tag: &str, inputs: &[Input], timeout: Durat
                 let alone = run_child(exe, &b1, &r1, Duration::from_secs(10));
                 let _ = std::fs::remove_file(&b1);
                 let _ = std::fs::remove_file(&r1);
+                // a batch that hit the watchdog is a non-termination only if the input alone hits it too;
+                // otherwise the machine was slow: the input is not judged and the batch goes on
+                if matches!(exit, Exit::Timeout) && matches!(alone, Exit::Done) {
+                    done.push(json!({"id": culprit.id, "obs": ["batch exceeded the watchdog, input completes alone: not judged"], "fails": [],
+                        "corr": [], "oracle": [], "hist": ["watchdog-not-reproduced"], "events": 0, "nontrivial": false, "sample": null}));
+                    rest = rest[n + 1..].to_vec();
+                    continue;
+                }
                 let (what, got) = match (&exit, &alone) {
-                    (Exit::Timeout, _) | (_, Exit::Timeout) => ("decoder does not terminate (watchdog)", "killed after timeout".to_string()),
+                    (_, Exit::Timeout) => ("decoder does not terminate (watchdog, reproduced alone)", "killed after timeout".to_string()),
                     (Exit::Died(s), _) => ("decoder aborted the process (non-unwinding panic)", s.clone()),
-                    (Exit::Done, Exit::Died(s)) => ("decoder aborted the process (non-unwinding panic)", s.clone()),
-                    (Exit::Done, Exit::Done) => ("child process ended without a result for this input", "no result".to_string()),
+                    (_, Exit::Died(s)) => ("decoder aborted the process (non-unwinding panic)", s.clone()),
+                    (_, Exit::Done) => ("child process ended without a result for this input", "no result".to_string()),
                 };
-                done.push(json!({"id": culprit.id, "fails": [{"what": what, "input": input_value(&culprit),
+                done.push(json!({"id": culprit.id, "obs": [], "fails": [{"what": what, "input": input_value(&culprit),
                     "expected": "decoding completes", "got": format!("{got}; alone in a fresh process: {}", match alone {
                         Exit::Done => "completes".to_string(), Exit::Died(s) => format!("dies ({s})"), Exit::Timeout => "hangs".to_string() })}],
                     "corr": [], "oracle": [], "hist": ["abnormal-exit"], "events": 0, "nontrivial": true, "sample": null}));
@@ -403,6 +411,27 @@ fn key_table_lean() -> String {
     s
 }
 
+/// `SurfModel/Generated/SgrTables.lean`, byte for byte what `c06 tables` writes
+fn sgr_tables_lean() -> String {
+    use surf_n_term::Color as _;
+    let (colors, cube, greys) = surf_n_term::decoder::verif_c06::palette_tables();
+    let mut s = String::from(
+        "/-! GENERATED by `harness c06 tables` from the current build of /repo (decoder COLORS, CUBE, GREYS). -/\nnamespace SurfModel.Generated\n",
+    );
+    let cs: Vec<String> = colors
+        .iter()
+        .map(|c| {
+            let [r, g, b, a] = c.to_rgba();
+            format!("({r},{g},{b},{a})")
+        })
+        .collect();
+    s.push_str(&format!("def colors16 : List (Nat × Nat × Nat × Nat) := [{}]\n", cs.join(",")));
+    s.push_str(&format!("def cube6 : List Nat := [{}]\n", cube.iter().map(|v| v.to_string()).collect::<Vec<_>>().join(",")));
+    s.push_str(&format!("def greys24 : List Nat := [{}]\n", greys.iter().map(|v| v.to_string()).collect::<Vec<_>>().join(",")));
+    s.push_str("end SurfModel.Generated\n");
+    s
+}
+
 /// the grammars of `SurfModel.Grammar` are the implementation's: dump equality of all matcher automata,
 /// bisimulation of the two compiled production automata with the model's; then the dumped tables are installed
 /// in the driver for the whole-decoder correspondence
@@ -468,6 +497,26 @@ fn generate(rng: &mut Rng, thorough: bool) -> Vec<Input> {
         };
         add(rng, Kind::Command, class, stream, 1 + (i % 2) as usize);
     }
+    // beyond every fixed-size assumption: 10^3..10^5-digit parameters, multi-KB strings, > 1000 items
+    let max_pow = if thorough { 5 } else { 4 };
+    for i in 0..(if thorough { 400 } else { 36 }) {
+        let kind = if i % 4 == 3 { Kind::Command } else { Kind::Event };
+        let (class, stream) = geninp::long_stream(rng, kind, max_pow);
+        add(rng, kind, class, stream, 1);
+    }
+    // beyond 2^16 bytes in one token (a length kept in a u16 would wrap): one parameter and one string
+    // (quick tier: implementation and oracle only - the list based Lean tokenizer is quadratic in the token length)
+    let tag = if thorough { "model" } else { "nomodel" };
+    add(rng, Kind::Event, format!("{tag}:mouse-7e4"), format!("\x1b[<0;{};5M", "7".repeat(70_000)).into_bytes(), 0);
+    add(rng, Kind::Event, format!("{tag}:paste-7e4"), format!("\x1b[200~{}\x1b[201~x", "p".repeat(70_000)).into_bytes(), 0);
+    add(rng, Kind::Command, format!("{tag}:sgr-7e4"), format!("\x1b[38;5;{}mz", "0".repeat(69_999) + "7").into_bytes(), 0);
+    if thorough {
+        // one parameter of 10^5 digits in each of the main families
+        for (class, s) in [("long:cursor-1e5", format!("\x1b[{};7R", "8".repeat(100_000))), ("long:sgr-1e5", format!("\x1b[38;2;{};0;0m", "1".repeat(100_000))),
+            ("long:mouse-1e5", format!("\x1b[<0;{};0M", "0".repeat(100_000)))] {
+            add(rng, Kind::Event, class.to_string(), s.into_bytes(), 0);
+        }
+    }
     for i in 0..n_utf8 {
         let (class, stream) = geninp::utf8_stream(rng);
         add(rng, Kind::Utf8, class, stream, 1 + (i % 2) as usize);
@@ -487,6 +536,7 @@ fn main() {
         for name in names {
             match name.as_str() {
                 "KeyTable" => std::fs::write(cfg.outdir.join("KeyTable.lean"), key_table_lean()).unwrap(),
+                "SgrTables" => std::fs::write(cfg.outdir.join("SgrTables.lean"), sgr_tables_lean()).unwrap(),
                 other => {
                     eprintln!("c02: unknown table {other}");
                     std::process::exit(2);
@@ -548,6 +598,7 @@ fn main() {
 
     let results = results.into_inner().unwrap();
     let mut abnormal = 0u64;
+    let mut observations: std::collections::BTreeMap<String, u64> = Default::default();
     for (k, batch) in batches.iter().enumerate() {
         let by_id: std::collections::HashMap<u64, &Value> =
             results[k].as_ref().map(|v| v.iter().filter_map(|r| r["id"].as_u64().map(|i| (i, r))).collect()).unwrap_or_default();
@@ -566,6 +617,11 @@ fn main() {
                     out.hist(h);
                 }
             }
+            for ob in r["obs"].as_array().into_iter().flatten() {
+                if let Some(ob) = ob.as_str() {
+                    *observations.entry(ob.to_string()).or_insert(0u64) += 1;
+                }
+            }
             for c in r["corr"].as_array().into_iter().flatten() {
                 out.corr(c[0].as_str().unwrap_or(""), c[1].as_str().unwrap_or(""));
             }
@@ -581,6 +637,7 @@ fn main() {
         }
     }
     out.extra("abnormal_child_exits", json!(abnormal));
+    out.extra("observations_not_judged_by_c02", json!(observations));
     out.extra("inputs", json!(inputs.len()));
     out.extra("partitions_per_input", json!("whole, byte-wise and 1-2 random cuts with empty reads (corners: 2, replay: 3)"));
     out.finish("streams for TTYEventDecoder / TTYCommandDecoder / Utf8Decoder: white-box corner cases, then structured protocol sequences with extreme parameters (50%), mutations of them (30%), biased random bytes (20%), each decoded under 3-4 partitions in a child process; plus the static part: acceptance of every byte string of length 1-2 and sampled 3-5 byte strings, utf8_decode on every accepted 1-2 byte string and on boundary/sampled 3-4 byte ones; non-trivial = the stream produced at least one item (streams) / the string is accepted (static); distinct by (decoder, stream)");
